@@ -31,6 +31,8 @@ na = []
 for p in props:
     if p not in claimed:
         na.append({"property_id": p, "reason": cfg["not_applicable"].get(p, "check not built yet in this round (planned in DESIGN.md section 4); not claimed")})
+for eng in cfg["engines"]:
+    eng["serves_properties"] = sorted(c["property_id"] for c in checks if c.get("engine") == eng["name"])
 m = {
     "version": 1,
     "setup_cmd": cfg["setup_cmd"],
